@@ -114,7 +114,11 @@ ruleLoop:
 
 		// Get a replacer so we can provide basic info for the authentication error.
 		repl := httpserver.NewReplacer(r, nil, "-")
-		repl.Set("user", username)
+		if username != "" {
+			// (a request without credentials has no user: {user} stays the
+			// empty-value marker in the log instead of an empty field)
+			repl.Set("user", username)
+		}
 		errstr := repl.Replace("BasicAuth: user \"{user}\" was not found or password was incorrect. {remote} {host} {uri} {proto}")
 		err := fmt.Errorf("%s", errstr)
 		return http.StatusUnauthorized, err
